@@ -37,6 +37,9 @@ def rename_id(d):
     return d
 
 
+_LATE = 0
+
+
 def one_tree(ctx, out, spec, objs, via_json, style="inplace"):
     """style of the mapper pair: `inplace` (edits the dict it is given, returns it or None), `fresh` (returns a NEW dict),
     `renamed-id` (fresh, and stores the data_id under its own key `guid`; the inverse mapper writes item['data_id'] back —
@@ -45,6 +48,18 @@ def one_tree(ctx, out, spec, objs, via_json, style="inplace"):
     m = S.Mappers(pool)
     tree = adapter.build(spec, pool)
     case = dict(spec=spec, objs=objs, via_json=via_json, style=style)
+    global _LATE
+    _LATE += 1
+    if _LATE % 3 == 0:
+        # custom ids that are given LATER (set_data(None, data_id=...) on a node that was created with its default id): they
+        # are custom ids like those passed to add()
+        for k_, n_ in enumerate(list(tree)):
+            if k_ % 2 == 0 and n_.data_id == tree.calc_data_id(n_.data) and not n_.is_clone():
+                try:
+                    n_.set_data(None, data_id=f"late-{_LATE}-{k_}")
+                except Exception:  # noqa
+                    pass
+        case["late_ids"] = _LATE
     before = S.tree_shape(tree, pool)
 
     def ser_fresh(node, data):
